@@ -219,6 +219,13 @@ def authz_cases(ctx, w, table, full: bool):
                     continue
                 for ov in rq.OVERLAYS[1:]:
                     out.append((row, f, ov))
+            # an admin's access token offered anywhere but the Authorization header (query string, cookie,
+            # body) by a caller that presents nothing else: the application reads the header only
+            if {"jwt", "jwtlogin"} & {g["g"] for g in rq.chain(row)}:
+                nf = rq.normalise(w, row, rq.vec(session="none", token="none", ajax=True))
+                if nf is not None:
+                    for ov in rq.JWT_LOCATION_OVERLAYS:
+                        out.append((row, nf, ov))
     return out
 
 
@@ -398,6 +405,108 @@ def authz_channel(ctx, w, table) -> Channel:
 
 
 # ---------------------------------------------------------------------------------------------
+# authz_history: the same requests with a history (no restore in between)
+
+def history_channel(ctx, w, table) -> Channel:
+    """for every mutating row: a documented caller's request that changes state, then – database NOT
+    restored, same process – the favourable request of every caller the documentation does not allow,
+    each sent twice; nothing of what they send may change the database or the blob store"""
+    import c15_requests as rq
+    ch = Channel("authz_history", rule=(
+        "for every mutating row: snapshot restored once, then the state-changing request of a documented caller, "
+        "then without any restore the favourable requests of anonymous (guest token) and of every account the "
+        "documentation does not allow for that row, each twice in a row; oracle: the fingerprint after each of "
+        "them equals the fingerprint before it; non-trivial = the documented caller's request did change state"))
+    allowed_vec = {"media": rq.vec(session="media", token="media"), "admin": rq.vec(session="admin", token="admin"),
+                   "self": rq.vec(session="user", token="user", target="user")}
+    for row in table["rows"]:
+        if not row["mutates"] or row["kind"] not in allowed_vec:
+            continue
+        first = rq.normalise(w, row, allowed_vec[row["kind"]])
+        if first is None:
+            continue
+        try:
+            obs0 = rq.execute(w, row, first)
+        except Exception as e:   # noqa: BLE001
+            ch.errors.append(f"{row['route']} {row['method']}: {type(e).__name__}: {e}")
+            continue
+        changed0 = bool(obs0["changed"])
+        for who in ("anonymous", "user", "media"):
+            s_, t_ = ("none", "guest") if who == "anonymous" else (who, who)
+            for tg in (["victim", "guest" if who == "anonymous" else who] if row["route"] == "api-edit-user" else ["victim"]):
+                v = rq.normalise(w, row, rq.vec(session=s_, token=t_, target=tg))
+                if v is None:
+                    v = rq.normalise(w, row, rq.vec(session=s_, token=t_, target=tg, csrfOk=False))
+                if v is None or may_change(row, v):
+                    continue
+                for rep in (1, 2):
+                    ch.evaluations += 1
+                    before = (w.db_fingerprint(), w.blob_listing())
+                    try:
+                        obs = rq.execute(w, row, v, restore=False)
+                    except Exception as e:   # noqa: BLE001
+                        ch.errors.append(f"{row['route']} {row['method']} {who}: {type(e).__name__}: {e}")
+                        continue
+                    after = (w.db_fingerprint(), w.blob_listing())
+                    ch.count(f"after a documented caller's change|{who}|{'repeat' if rep == 2 else 'first'}|"
+                             f"{'entered' if obs['entered'] else 'stopped'}")
+                    if changed0:
+                        ch.nontrivial.add((row["route"], row["method"], who, tg, rep))
+                    if after != before:
+                        diff = sorted(t for t in after[0] if after[0][t] != before[0].get(t))
+                        ch.oracle_failures.append({
+                            "channel": "authz_history", "clause": "a caller the documentation does not allow changed "
+                            "persistent state (request sent after a documented caller's change, no restore)",
+                            "history": {"route": row["route"], "method": row["method"], "first": rq.veckey(first),
+                                        "then": rq.veckey(v), "repeat": rep},
+                            "changed": diff + (["blobs"] if after[1] != before[1] else []),
+                            "status": obs["status"], "request": obs["request"]})
+        ch.sample({"row": [row["route"], row["method"]], "documented_change": obs0["changed"]}, limit=2)
+    w.restore()
+    return ch
+
+
+def process_snapshot(w):
+    """module-level / class-level objects the guards depend on"""
+    from dashlive.server.models import token as token_mod
+    from dashlive.server.models.group import Group
+    snap = {"KEY_LIFETIMES": {str(k): str(v) for k, v in token_mod.KEY_LIFETIMES.items()},
+            "Token": {k: getattr(token_mod.Token, k) for k in ("CSRF_KEY_LENGTH", "CSRF_SALT_LENGTH", "MAX_TOKEN_LENGTH")},
+            "Group": {g.name: int(g.value) for g in Group},
+            "DASH": {k: str(v) for k, v in sorted(w.app.config["DASH"].items())},
+            "jwt": {k: str(w.app.config.get(k)) for k in ("JWT_TOKEN_LOCATION", "JWT_ACCESS_TOKEN_EXPIRES",
+                                                          "JWT_REFRESH_TOKEN_EXPIRES", "SECRET_KEY")},
+            "anonymous_user": getattr(w.app.login_manager.anonymous_user, "__name__", "?"),
+            "decorators": {}}
+    for ep, vf in sorted(w.app.view_functions.items()):
+        vc = getattr(vf, "view_class", None)
+        if vc is not None:
+            snap["decorators"][ep] = [id(d) for d in vc.decorators]
+    return snap
+
+
+def process_state_channel(w, table, before) -> Channel:
+    import c15_routes
+    ch = Channel("process_state", rule=(
+        "after all requests of the run: the module- and class-level objects the guards depend on (KEY_LIFETIMES, "
+        "Token constants, Group values, DASH / JWT configuration, anonymous user class, every view class's "
+        "`decorators` list) equal their snapshot taken before the first request, and the wrapper chains still "
+        "match the generated table; non-trivial = every compared object"))
+    after = process_snapshot(w)
+    for k in before:
+        ch.evaluations += 1
+        ch.nontrivial.add(k)
+        if before[k] != after[k]:
+            ch.disagreements.append({"what": f"process-level object {k} changed during the run",
+                                     "before": str(before[k])[:300], "after": str(after[k])[:300]})
+    n, problems = c15_routes.crosscheck(w.app, table)
+    ch.evaluations += n
+    ch.disagreements.extend({"after_all_requests": True, **p} for p in problems)
+    ch.sample({"objects": sorted(before), "rows_rechecked": n})
+    return ch
+
+
+# ---------------------------------------------------------------------------------------------
 # csrf_seq
 
 class _Secrets:
@@ -479,6 +588,12 @@ def scripted_csrf_seqs(services):
                 if first != "use":
                     ops.append(("c", "use", 0, 0))
                 out.append((False, ops, [cookie], origins))
+    # token length boundaries around the 8-character salt, and a very long token
+    ops = [("i", svc, cookie, origins[0])]
+    for n in (0, 1, 7, 8, 9, 38):
+        ops.append(("c", "truncate", 0, n))
+    ops += [("c", "extend", 0, 0), ("c", "long", 0, 0), ("c", "use", 0, 0), ("c", "long", 0, 0), ("c", "reuse", 0, 0)]
+    out.append((False, ops, [cookie], origins))
     return out
 
 
@@ -611,6 +726,8 @@ def run_csrf_seq(w, rng_salt, strict, ops, cookies, origins, services, in_h_only
                         tok = tok[:r % len(tok)]
                     elif kind == "extend":
                         tok = tok + "A"
+                    elif kind == "long":
+                        tok = tok + "A" * 4096
                     elif kind == "swap" and len(issued) > 1:
                         t2 = issued[(idx + 1) % len(issued)][0]
                         tok = tok[:8] + t2[8:]
@@ -980,12 +1097,15 @@ def channels(ctx):
     import c15_world
     table = _table()
     w = c15_world.world()
+    snap = process_snapshot(w)
     yield xcheck_channel(w, table)
     yield authz_channel(ctx, w, table)
+    yield history_channel(ctx, w, table)
     yield csrf_channel(ctx, w, table)
     w.restore()
     yield csrf_http_channel(ctx, w, table)
     yield lifecycle_channel(ctx, w, table)
+    yield process_state_channel(w, table, snap)
 
 
 # ---------------------------------------------------------------------------------------------
@@ -1096,6 +1216,23 @@ def replay(ctx, payload):
         return {"fails": bool(fail), "clause": fail["clause"] if fail else None, "case": f["case"],
                 "documented": row["kind"], "status": obs["status"], "body_entered": obs["entered"],
                 "changed": obs["changed"], "changed_user_rows": obs["changed_users"], "request": obs["request"]}
+    if "history" in f:
+        import c15_requests as rq
+        w = c15_world.world()
+        h = f["history"]
+        row = next((r for r in table["rows"] if r["route"] == h["route"] and r["method"] == h["method"]), None)
+        if row is None:
+            return {"fails": False, "note": "route/method no longer exists"}
+        rq.execute(w, row, rq.vec_from_key(h["first"]))
+        fails = False
+        seq = []
+        for _ in range(h.get("repeat", 1)):
+            before = (w.db_fingerprint(), w.blob_listing())
+            obs = rq.execute(w, row, rq.vec_from_key(h["then"]), restore=False)
+            seq.append(obs["request"].get("sequence"))
+            fails = fails or (w.db_fingerprint(), w.blob_listing()) != before
+        w.restore()
+        return {"fails": fails, "history": h, "sequence": seq}
     if "ops" in f and "lifecycle" in f:
         import c15_life
         w = c15_world.world()
